@@ -37,7 +37,7 @@ class Spec:
         self.values = {}  # param -> value
         self.initial = []  # [target, guess], last call for a symbol moves to the end
         self.cb = False
-        self.stages = []  # child Specs (C12)
+        self.stages = []  # [name, child Spec] in creation order (C12)
 
     # -- helpers
     def sym(self, name):
@@ -61,8 +61,14 @@ class Spec:
 
     def to_json(self):
         d = dict(self.__dict__)
-        d["stages"] = [s.to_json() for s in self.stages]
+        d["stages"] = [[n, s.to_json()] for n, s in self.stages]
         return jcopy(d)
+
+    def child(self, name):
+        for n, s in self.stages:
+            if n == name:
+                return s
+        return None
 
     # -- transitions: apply an op that the real system accepted
     def apply(self, op):
@@ -72,7 +78,7 @@ class Spec:
             self.t0 = jcopy(op.get("t0", ["num", 0]))
             self.T_scale = op.get("scale", 1)
         elif k == "sym":
-            d = {kk: vv for kk, vv in op.items() if kk != "op"}
+            d = {kk: vv for kk, vv in op.items() if kk not in ("op", "stage", "a", "fault", "kind_")}
             self.syms.append(jcopy(d))
         elif k == "set_der":
             self.der[op["state"]] = [jcopy(op["expr"]), op.get("scale", 1)]
@@ -81,7 +87,7 @@ class Spec:
         elif k == "add_alg":
             self.alg.append([jcopy(op["expr"]), op.get("scale", 1)])
         elif k == "subject_to":
-            d = {kk: vv for kk, vv in op.items() if kk != "op"}
+            d = {kk: vv for kk, vv in op.items() if kk not in ("op", "stage", "a", "fault", "expect")}
             self.cons.append(jcopy(d))
         elif k == "clear_constraints":
             self.cons = []
@@ -140,6 +146,18 @@ def program(spec, consts=None):
         ops.append({"op": "set_T", "T": T})
     if t0[0] == "par":
         ops.append({"op": "set_t0", "t0": t0})
+    # children: every stage -- also one that was created from a template -- written as a direct stage
+    for name, ch in spec.stages:
+        cops = program(ch)
+        head = cops[0]
+        d = {"op": "stage", "name": name}
+        for k in ("T", "t0"):
+            if k in head:
+                d[k] = head[k]
+        ops.append(d)
+        for op in cops[1:]:
+            op["stage"] = name
+            ops.append(op)
     for st, (ast, sc) in spec.der.items():
         ops.append({"op": "set_der", "state": st, "expr": sub(ast), "scale": sc})
     for st, ast in spec.nxt.items():
@@ -239,16 +257,32 @@ def raw_value(v):
 class Actor:
     """A live rockit Ocp (or Stage) with its symbol table and its reference model."""
 
-    def __init__(self, name="A"):
+    def __init__(self, name="A", parent=None):
         self.name = name
         self.ocp = None
         self.syms = {}
         self.spec = Spec()
         self.hidden = {}
+        self.parent = parent  # owning actor (for stages, templates, clones)
+        self.sub = {}  # name -> Actor wrapping a stage of this OCP
+        self.templates = {}  # name -> Actor wrapping a free-standing template Stage
 
     @property
     def env(self):
-        return E.Env(self.ocp, self.syms)
+        e = E.Env(self.ocp, self.syms)
+        root = self.parent or self
+        e.scope = root  # ["in", stage, ast] is resolved against the owning actor
+        return e
+
+    def node(self, name):
+        """the (sub-)actor an op with "stage": name addresses"""
+        if not name:
+            return self
+        if name in self.sub:
+            return self.sub[name]
+        if name in self.templates:
+            return self.templates[name]
+        raise KeyError(name)
 
     def tspec(self, ts):
         from rockit import FreeTime
@@ -266,7 +300,7 @@ class Actor:
             return self.ocp.T
         if x == "t0":
             return self.ocp.t0
-        return self.syms[x]
+        return self.env.lookup(x)
 
     def guess(self, g):
         if g[0] == "num":
@@ -279,10 +313,42 @@ class Actor:
 
     def apply(self, op, update_spec=True):
         """Execute one specification op on the real object. Exceptions propagate (spec untouched)."""
-        r = self._apply(op)
+        k = op["op"]
+        if k in ("stage", "template", "clone"):
+            return self._structure(op)
+        tgt = self.node(op.get("stage"))
+        r = tgt._apply(op)
         if update_spec:
-            self.spec.apply(op)
+            tgt.spec.apply(op)
         return r
+
+    def _structure(self, op):
+        from rockit import Stage
+
+        k = op["op"]
+        name = op["name"]
+        if name in self.sub or name in self.templates:
+            raise KeyError("duplicate " + name)
+        kw = {}
+        node = Actor(name, parent=self)
+        if k == "clone":
+            tpl = self.templates[op["template"]]
+            node.syms = dict(tpl.syms)  # a clone is addressed through its template's symbols
+            node.spec = tpl.spec.clone()
+        for key in ("T", "t0"):
+            if key in op:
+                kw[key] = node.tspec(op[key]) if op[key][0] != "par" else None
+                setattr(node.spec, key, jcopy(op[key]))
+        if k == "template":
+            node.ocp = Stage(**kw)
+            self.templates[name] = node
+            return
+        if k == "stage":
+            node.ocp = self.ocp.stage(**kw)
+        else:
+            node.ocp = self.ocp.stage(self.templates[op["template"]].ocp, **kw)
+        self.sub[name] = node
+        self.spec.stages.append([name, node.spec])
 
     def _apply(self, op):
         from rockit import Ocp
@@ -353,7 +419,7 @@ class Actor:
         if k == "solver":
             return o.solver(op["name"], jcopy(op.get("opts", {})))
         if k == "set_value":
-            return o.set_value(self.syms[op["p"]], make_value(op["v"]))
+            return o.set_value(self.env.lookup(op["p"]), make_value(op["v"]))
         if k == "set_initial":
             return o.set_initial(self.target(op["x"]), self.guess(op["g"]))
         if k == "callback":
@@ -388,6 +454,6 @@ def declared_fingerprint(stage):
         "T": type(stage._T).__name__ + (str(stage._T) if not hasattr(stage._T, "T_init") else str(stage._T.T_init)),
         "t0": type(stage._t0).__name__ + (str(stage._t0) if not hasattr(stage._t0, "T_init") else str(stage._t0.T_init)),
         "nder": len(list(stage._state_der.keys())),
-        "nstages": len(stage._stages),
+        "stages": [declared_fingerprint(s) for s in stage._stages],
     }
     return json.dumps(fp, sort_keys=True)
